@@ -46,6 +46,14 @@ CHECKS = {
             'Bezier curve whose closest-point answers are compared with dense sampling plus refinement; conversions and the great-circle distance are compared on a full (lon,lat) lattice, all pairs.',
             'Kernels are called directly through their public headers; lattice sizes bound the claim. Bezier queries whose nearest curve point is a curve end are not judged.',
             'DESIGN.md section 3 C19'),
+    'C14': ('model_checking', 'E3',
+            'stateless model checking of the real code: all schedules with <= 2|3 preemptions (iterative context bounding) under a cooperative scheduler over hooked yield points and interposed pthread_create/join, plus exhaustive (n, threads) enumeration of the work partition and every -j in 1..40 of the real tool; data races by a separate free-running ThreadSanitizer pass',
+            'Worker threads of the real ThreadPool query one real World; the scheduler serialises them and enumerates every interleaving of the scheduling points (thread create/join/exit and the three yield '
+            'hooks of World::properties) within the preemption bound, each execution on a brand-new world, every result compared bit-for-bit with the sequential answer and one schedule per unit replayed. '
+            'parallel_for is run for every n in 0..256|2000 and every thread count 1..40 (each index visited exactly once) and gwb-grid for every -j in 1..40 on 8 grids (byte-identical files). '
+            'Because a serialising scheduler hides unsynchronised accesses, the same bodies run free in the TSan build on brand-new worlds with 8 threads released together.',
+            'Code between two scheduling points is atomic under the scheduler; races inside such stretches are only covered by TSan happens-before analysis (sampled executions, not exhaustive). Sequential consistency assumed. Worlds without random models.',
+            'DESIGN.md section 3 C14'),
 }
 NOT_YET = {}
 
